@@ -83,6 +83,17 @@ CHECKS = {
         note="Trusted: TLC, term conversion, choice oracle. When a request targets a parameter tied to another by a bound, only the clauses that do "
              "not depend on the request are judged (the statement leaves the rewriting of the other assignments open).",
     ),
+    "C14": dict(
+        category="model_checking",
+        technique="ground truth of diagnostic chunk streams in TLA+ (HCompilerOut); TLC enumerates all short streams and random long ones; "
+                  "streams rendered in four compiler formats and analysed by the real code; TLC validates files, per-file messages, crash "
+                  "classification; real javac 17 batches with errors known by construction in the thorough tier",
+        text="All streams of <=3 (thorough: <=4) chunks over 3 files and 5 message kinds plus random streams up to length 20, x 4 compilers; "
+             "attribution, message order per file, filter handling and crash classification compared with the spec's ground truth.",
+        design_ref="DESIGN.md §5 C14",
+        note="Trusted: TLC, the renderer (kotlinc/groovyc/scalac formats from documentation; javac cross-checked with the real compiler), "
+             "token-based message identification.",
+    ),
 }
 
 NOT_YET = "check not built yet (work in progress in this session; see DESIGN.md §10 for the order of work)"
